@@ -70,6 +70,10 @@ Proof. exact heartbeat_started_as_announced. Qed.
 Theorem C16_process_source_is_model : forall (o : hopts) (eo : val) (st : hstate) (f : hframe) (log : list val) (fuel : nat), gen_HandshakeState_process (ext_model o eo) (S (S fuel)) (enc_state eo st) (VC "effects" log) (enc_frame f) = (enc_state eo (r_state (hprocess o st f)), VC "effects" (log ++ enc_effects o (hprocess o st f)), enc_result (hprocess o st f)).
 Proof. exact process_source_is_model. Qed.
 
+(* ... over ANY sequence of handshake frames from any state: the translated process, applied frame after frame until one fails (as the loop does with the frames of a read), ends in the model's state, has pushed the model's methods - and sealed, and started the heartbeats - in the model's order and returns the model's error; so C16_sent_prefix / C16_connected_only_after_exchange, stated of hprocess runs, hold of the translated code *)
+Theorem C16_frames_source_is_model : forall (o : hopts) (eo : val) (fs : list hframe) (st : hstate) (log : list val), gframes o eo (enc_state eo st) (VC "effects" log) fs = (enc_state eo (run_state o st fs), VC "effects" (log ++ run_effects o st fs), run_result o st fs).
+Proof. exact frames_source_is_model. Qed.
+
 (* non-vacuity: the complete exchange with a RabbitMQ-like server *)
 Example C16_example :
   let o := {| o_mech := [80; 76; 65; 73; 78]; o_response := [0; 103; 0; 103]; o_locale := [101; 110];
@@ -98,6 +102,7 @@ Check C16_no_hang_with_timeout : forall (o : hopts) (evs : list hevent) (st : hs
 Check C16_hang_means_silence : forall (o : hopts) (evs : list hevent) (st : hstate) (sent : list csend) (hb : option N) (sent' : list csend) (hb' : option N), hrun o st evs sent hb = (Hang, sent', hb') -> Forall (fun ev : hevent => match ev with | HRead _ t => t = HtBlock | HSilence => True end) evs.
 Check C16_heartbeat_as_announced : forall (o : hopts) (st : hstate) (f : hframe) (h : N), r_hb (hprocess o st f) = Some h -> exists cm fm : N, In (STuneOk cm fm h) (r_sent (hprocess o st f)).
 Check C16_process_source_is_model : forall (o : hopts) (eo : val) (st : hstate) (f : hframe) (log : list val) (fuel : nat), gen_HandshakeState_process (ext_model o eo) (S (S fuel)) (enc_state eo st) (VC "effects" log) (enc_frame f) = (enc_state eo (r_state (hprocess o st f)), VC "effects" (log ++ enc_effects o (hprocess o st f)), enc_result (hprocess o st f)).
+Check C16_frames_source_is_model : forall (o : hopts) (eo : val) (fs : list hframe) (st : hstate) (log : list val), gframes o eo (enc_state eo st) (VC "effects" log) fs = (enc_state eo (run_state o st fs), VC "effects" (log ++ run_effects o st fs), run_result o st fs).
 
 Print Assumptions C16_connected_only_after_exchange.
 Print Assumptions C16_sent_prefix.
@@ -116,4 +121,5 @@ Print Assumptions C16_no_hang_with_timeout.
 Print Assumptions C16_hang_means_silence.
 Print Assumptions C16_heartbeat_as_announced.
 Print Assumptions C16_process_source_is_model.
+Print Assumptions C16_frames_source_is_model.
 Print Assumptions C16_example.
